@@ -113,7 +113,7 @@ def jobs(tier: str):
         return cfgs
 
     fams = ["C05", "C08", "C09", "C10", "C11", "C12", "C13", "C14", "C15", "C16"]
-    yield from compose.remap(compose.family_jobs(fams, tier, variants=12), "C01", mk, keep=slice_keep(tier))
+    yield from compose.remap(compose.family_jobs(fams, tier, variants=12), "C01", mk, keep=slice_keep("quick"))
     # (c) frozen inputs of the repository's tests: universe derived mechanically
     yield from corpus_tests_jobs(tier)
 
